@@ -36,9 +36,8 @@ type Token struct {
 	Pos, End int
 }
 
-func (t Token) is(kind, text string) bool { return t.Kind == kind && t.Text == text }
-func (t Token) punct(text string) bool    { return t.Kind == KindPunct && t.Text == text }
-func (t Token) ident(text string) bool    { return t.Kind == KindIdent && t.Text == text }
+func (t Token) punct(text string) bool { return t.Kind == KindPunct && t.Text == text }
+func (t Token) ident(text string) bool { return t.Kind == KindIdent && t.Text == text }
 
 // LexError is a lexical problem.
 type LexError struct {
